@@ -75,7 +75,12 @@ pub fn set_cost_log(on: bool) {
 }
 
 pub fn take_cost_log() -> Vec<(u64, u64)> {
-    COST_LOG.with(|l| l.borrow_mut().as_mut().map(std::mem::take).unwrap_or_default())
+    COST_LOG.with(|l| {
+        l.borrow_mut()
+            .as_mut()
+            .map(std::mem::take)
+            .unwrap_or_default()
+    })
 }
 
 #[inline]
